@@ -142,6 +142,20 @@ class QfixedImp(float, Qtype):
         return v[1][v[0].BIT_SIZE_FRACTIONAL :] + v[1][: v[0].BIT_SIZE_FRACTIONAL][::-1]
 
     @staticmethod
+    def relayout(v: TExp, t) -> TExp:
+        """Re-express a Qfixed value in the layout of the Qfixed type t: the integer and the
+        fractional part are each extended with zeros or cropped, so that the binary point stays"""
+        ip = QfixedImp.integer_part(v)[: t.BIT_SIZE_INTEGER]
+        fp = QfixedImp.fractional_part(v)[: t.BIT_SIZE_FRACTIONAL]
+        return (
+            t,
+            ip
+            + [False] * (t.BIT_SIZE_INTEGER - len(ip))
+            + fp
+            + [False] * (t.BIT_SIZE_FRACTIONAL - len(fp)),
+        )
+
+    @staticmethod
     def _align(tleft: TExp, tright: TExp):
         """Bring two Qfixed operands to the same layout: the operand whose integer and
         fractional parts are both not longer is re-expressed in the layout of the other"""
